@@ -18,6 +18,9 @@ from .common import doc
 def same_outcome(a: Obs, b: Obs, strict_order: bool = True) -> Optional[str]:
     if a.rc.reused:
         return "node_instance_reused:%s" % a.rc.reused[0]
+    if a.rc.bad:
+        where, what = a.rc.bad[0]
+        return "bad:%s.%s:%s" % (where[0], where[1], what)
     if a.kind != b.kind:
         return "kind:%s/%s" % (a.kind, b.kind)
     if a.kind == "done":
@@ -100,6 +103,7 @@ for name, f, k, tier, goals in [
     # without a default, a failure contained by a one-of) must leave as little behind as one that ends normally
     ("recurrent_failing", lambda: C.rec_simple(2, False, True), 2, "quick", ("mixed_history",)),
     ("recurrent_in_oneof", C.rec_in_oneof, 2, "quick", ()),
+    ("recurrent_generic_start", C.rec_generic_start, 2, "quick", ()),
     ("oneof_fallback_3runs", C.oneof_basic, 3, "thorough", ("mixed_history", "success_after_failure")),
     ("recurrent_3runs", lambda: C.rec_simple(1, True), 3, "thorough", ()),
     ("oneof_nested", C.oneof_nested, 2, "thorough", ()),
